@@ -11,6 +11,11 @@ use crate::common::error;
 use crate::verif_seams::lazy_static;
 #[cfg(not(rfsm_verif))]
 use lazy_static::lazy_static;
+#[cfg(rfsm_verif)]
+use crate::verif_seams::collections::{HashMap, HashSet};
+#[cfg(rfsm_verif)]
+use std::collections::VecDeque;
+#[cfg(not(rfsm_verif))]
 use std::collections::{HashMap, HashSet, VecDeque};
 use std::fmt::{Debug, Display, Formatter};
 use std::hash::Hash;
